@@ -64,15 +64,16 @@ def build_ir(ctx, u):
     tu = os.path.join(HAR, u.tu)
     ll = os.path.join(ctx.wd, u.name + '.ll'); c = os.path.join(ctx.wd, u.name + '.c'); meta = os.path.join(ctx.wd, u.name + '.meta.json')
     flags = CLANG_FLAGS + defs(u) + u.cflags
-    rc, out, err, t = sh(['clang++-14'] + flags + ['-S', '-emit-llvm', tu, '-o', ll])
+    rc, out, err, t = sh(['clang++-14'] + flags + ['-Rpass=inline', '-S', '-emit-llvm', tu, '-o', ll])
     if rc != 0: return dict(ok=False, stage='clang', err=err[-4000:])
+    inlined = sorted(set(re.findall(r"remark: '([^']+)' inlined into", err)))
     rc, out, err2, t2 = sh(['clang++-14'] + flags + ['-MM', tu])
     hdrs = sorted(set(h for h in re.split(r'[\s\\]+', out) if h.startswith(REPO + '/include')))
     cmd = ['python3', os.path.join(ENG, 'll2c.py'), ll, '-o', c, '--meta', meta]
     for r in u.stubs: cmd += ['--stub-fn', r]
     rc, out, err, t3 = sh(cmd)
     if rc != 0: return dict(ok=False, stage='ll2c', err=err[-4000:])
-    return dict(ok=True, ll=ll, c=c, meta=json.load(open(meta)), headers=hdrs, t=t + t3, stubbed=[l for l in err.split('\n') if l.startswith('ll2c: stubbed')])
+    return dict(ok=True, ll=ll, c=c, meta=json.load(open(meta)), headers=hdrs, inlined=inlined, t=t + t3, stubbed=[l for l in err.split('\n') if l.startswith('ll2c: stubbed')])
 
 
 def build_native(ctx, u, sanitize=False):
@@ -101,12 +102,17 @@ def events(exe, mode, entry, args, timeout=60):
     return ev, err
 
 
-def differential(ctx, u, nat, entries):
-    """translator validation: same PRNG vectors through the g++ build of the real TU and the gcc build of the generated C"""
+def differential(ctx, u, nat, entries, seeds=None):
+    """translator validation: the same input vectors through the g++ build of the real TU and the gcc build of the generated C.
+    Vectors are PRNG streams and, where the solver produced a witness for the entry, perturbations of that witness (so that most
+    vectors pass the harness assumptions and run to the end)."""
     total = 0; completed = 0; diffs = []
     for e in entries:
-        a, _ = events(nat['real'], 'random', e, [ctx.seed, u.nvec, u.rnd[0], u.rnd[1]], timeout=120)
-        b, _ = events(nat['gen'], 'random', e, [ctx.seed, u.nvec, u.rnd[0], u.rnd[1]], timeout=120)
+        base = (seeds or {}).get(e)
+        if base: args = ['mutate', e, [ctx.seed, u.nvec, u.rnd[0], u.rnd[1]] + list(base)]
+        else: args = ['random', e, [ctx.seed, u.nvec, u.rnd[0], u.rnd[1]]]
+        a, _ = events(nat['real'], args[0], args[1], args[2], timeout=120)
+        b, _ = events(nat['gen'], args[0], args[1], args[2], timeout=120)
         total += u.nvec; completed += sum(1 for l in a if l.startswith('D '))
         if a != b:
             # first differing vector
@@ -246,12 +252,16 @@ def do_check(ctx, registry, a):
         for f in cb_f: f.cancel()
         write_evidence(ctx, a, units, builds, results, diffres, violations, known_hits, problems, t_start, 0)
         return 2
-    # translator validation
-    dfut = {pool.submit(differential, ctx, u, natives[u.name], u._ents): u for u in units if u._ents}
     for f in cf.as_completed(cb_f):
         r = f.result(); results.append(r)
         np_ = len(r['props']); nf = sum(1 for p in r['props'] if p['status'] == 'FAILURE' and classify(p['desc']) != 'reach')
         ctx.say('  %-28s %-22s %-8s %4d props %3d failed  %6.1fs %5d MB' % (r['unit'], r['entry'], r['status'], np_, nf, r['solver_s'], r['rss_kb'] // 1024))
+    # translator validation, seeded by the solver's witnesses
+    wseeds = {}
+    for r in results:
+        for p in r['props']:
+            if classify(p['desc']) == 'reach' and p['status'] == 'FAILURE' and p.get('inputs'): wseeds.setdefault(r['unit'], {}).setdefault(r['entry'], p['inputs'])
+    dfut = {pool.submit(differential, ctx, u, natives[u.name], u._ents, wseeds.get(u.name)): u for u in units if u._ents}
     for f in cf.as_completed(dfut):
         u = dfut[f]; diffres[u.name] = f.result()
         for d in diffres[u.name]['diffs']:
@@ -356,6 +366,7 @@ def write_evidence(ctx, a, units, builds, results, diffres, violations, known_hi
     for u in units:
         b = builds.get(u.name)
         if not b or not b.get('ok'): continue
+        fns |= set(b.get('inlined', []))
         for e, m in b['meta']['entries'].items():
             if e in getattr(u, '_ents', []):
                 fns |= set(m['functions']); asserts |= set(m['libassert_sites'])
